@@ -253,4 +253,11 @@ def gen_batch(n, opts, tag=""):
         from . import e2e_names
         for p in progs:
             e2e_names.adversarial(rng, p, opts)
+    if opts.get("p_wire_import_forms"):
+        # the injector files reach the marker functions through a dot import or a renamed import (own random stream:
+        # the programs themselves stay what they were)
+        r2 = random.Random(seed() * 104729 + len(tag))
+        for p in progs:
+            if r2.random() < opts["p_wire_import_forms"]:
+                p.wire_import = r2.choice(["dot", "dot", "renamed"])
     return progs
